@@ -32,6 +32,7 @@ uint8_t *sec_copy(void);         /* malloc'ed snapshot */
 struct kdfcall {
     uint8_t pw[1100]; size_t pwlen; const void *pwptr;
     uint8_t salt[64]; size_t saltlen; uint64_t iters; uint8_t *key; size_t keylen;
+    int table;                /* which injected table's KDF function was called (0 = A, 1 = B) */
 };
 struct blk { void *p; size_t n; int wiped; };
 #define MAXLIVE 64
